@@ -270,36 +270,41 @@ def close(got, want, ulps, mag=0):
 
 
 def handle(c):
-    kind = c['comp'] + ':' + c.get('variant', '')
+    kind = c['comp'] + ':' + c.get('variant', '') + (':history' if c.get('x_prev') else '')
     if c['comp'] == 'balance_rhs_kwargs':
         return handle_balance_kwargs(c)
     if c['comp'] == 'self_product':
         return handle_self_product(c)
     if c['comp'] == 'spline':
         return handle_spline(c)
+    if c['comp'] == 'linsys_hist':
+        return handle_linsys_hist(c)
     env = [fr(v) for v in c['x']]
     comp, layout, onames, implicit = build(c)
     p = om.Problem()
     p.model.add_subsystem('c', comp, promotes=['*'])
     p.setup()
     p.final_setup()
-    o = 0
-    for io, name, shape in layout:
-        sz = int(np.prod(shape))
-        arr = np.array([float(v) for v in env[o:o + sz]]).reshape(shape)
-        if io == 'in':
-            comp._inputs[name] = arr
+    # history: an earlier full evaluation (other inputs) on the same Problem must not influence the later one
+    envs = ([[fr(v) for v in c['x_prev']]] if c.get('x_prev') else []) + [env]
+    for ev in envs:
+        o = 0
+        for io, name, shape in layout:
+            sz = int(np.prod(shape))
+            arr = np.array([float(v) for v in ev[o:o + sz]]).reshape(shape)
+            if io == 'in':
+                comp._inputs[name] = arr
+            else:
+                comp._outputs[name] = arr
+            o += sz
+        ncols = o
+        if implicit:
+            comp.run_apply_nonlinear()
+            vec = comp._residuals
         else:
-            comp._outputs[name] = arr
-        o += sz
-    ncols = o
-    if implicit:
-        comp.run_apply_nonlinear()
-        vec = comp._residuals
-    else:
-        comp.run_solve_nonlinear()
-        vec = comp._outputs
-    comp.run_linearize()
+            comp.run_solve_nonlinear()
+            vec = comp._outputs
+        comp.run_linearize()
     outs = []
     for n in onames:
         outs += [Fraction(float(v)) for v in np.asarray(vec[n]).ravel()]
@@ -344,6 +349,75 @@ def handle(c):
     if c['comp'] in ('eqmulti', 'balmulti'):
         res = '__none__'      # several equations on one component: oracle only
     return {'res': res, 'ok': ok, 'msg': msg, 'sig': kind, 'kind': kind}
+
+
+def frac_solve(A, B):
+    """exact solution X of A X = B (lists of Fractions) by Gauss-Jordan elimination"""
+    n = len(A)
+    M = [list(A[i]) + list(B[i]) for i in range(n)]
+    for col in range(n):
+        piv = next(r for r in range(col, n) if M[r][col] != 0)
+        M[col], M[piv] = M[piv], M[col]
+        pv = M[col][col]
+        M[col] = [v / pv for v in M[col]]
+        for r in range(n):
+            if r != col and M[r][col] != 0:
+                f = M[r][col]
+                M[r] = [a - f * b for a, b in zip(M[r], M[col])]
+    return [row[n:] for row in M]
+
+
+def handle_linsys_hist(c):
+    """LinearSystemComp on ONE Problem through a history of (A, b): after every run_model the state must solve
+    the CURRENT system and the totals d x / d b, d x / d A must be those of the CURRENT A"""
+    vs, size, vecA = c['vs'], c['size'], c['vecA']
+    kind = 'linsys_hist:vs%d:size%d%s:runs%d' % (vs, size, ':vecA' if vecA else '', len(c['steps']))
+    p = om.Problem()
+    p.model.add_subsystem('ls', om.LinearSystemComp(size=size, vec_size=vs, vectorize_A=vecA), promotes=['*'])
+    p.setup()
+    nA = vs if (vecA and vs > 1) else 1
+    for k, st in enumerate(c['steps']):
+        As = [[[fr(v) for v in row] for row in A] for A in st['A']]       # nA matrices
+        bs = [[fr(v) for v in b] for b in st['b']]                        # vs right-hand sides
+        Af = np.array([[[float(v) for v in row] for row in A] for A in As])
+        p.set_val('A', Af if nA > 1 else Af[0])
+        bf = np.array([[float(v) for v in b] for b in bs])
+        p.set_val('b', bf if vs > 1 else bf[0])
+        p.run_model()
+        x = np.asarray(p.get_val('x')).reshape(vs, size)
+        tot = p.compute_totals(of=['x'], wrt=['b', 'A'], return_format='dict')
+        dxdb = np.asarray(tot['x']['b']).reshape(vs * size, vs * size)
+        dxdA = np.asarray(tot['x']['A']).reshape(vs * size, nA * size * size)
+        for i in range(vs):
+            A = As[i if nA > 1 else 0]
+            xe = [r[0] for r in frac_solve(A, [[v] for v in bs[i]])]
+            inv = frac_solve(A, [[Fraction(int(r == cc)) for cc in range(size)] for r in range(size)])
+            scale = 1.0 + max(abs(float(v)) for v in xe)
+            for j in range(size):
+                if abs(x[i, j] - float(xe[j])) > 1e-9 * scale:
+                    return {'res': '__none__', 'ok': False, 'sig': 'state:' + kind, 'kind': kind,
+                            'msg': 'run %d: x[%d,%d] = %r but the current system A x = b has solution %r'
+                                   % (k + 1, i, j, x[i, j], float(xe[j]))}
+            for j in range(size):
+                for i2 in range(vs):
+                    for j2 in range(size):
+                        want = float(inv[j][j2]) if i2 == i else 0.0
+                        got = dxdb[i * size + j, i2 * size + j2]
+                        if abs(got - want) > 1e-9 * (1.0 + abs(want)):
+                            return {'res': '__none__', 'ok': False, 'sig': 'totals:' + kind, 'kind': kind,
+                                    'msg': 'run %d: d x[%d,%d] / d b[%d,%d] = %r, inverse of the current A gives %r'
+                                           % (k + 1, i, j, i2, j2, got, want)}
+                # d x_j / d A_{r,cc} = - inv[j][r] * x[cc]   (summed over the rows of vec_size sharing A)
+                for a in range(nA):
+                    for r in range(size):
+                        for cc in range(size):
+                            want = -float(inv[j][r] * xe[cc]) if (nA == 1 or a == i) else 0.0
+                            got = dxdA[i * size + j, a * size * size + r * size + cc]
+                            if abs(got - want) > 1e-9 * (1.0 + abs(want)):
+                                return {'res': '__none__', 'ok': False, 'sig': 'totals:' + kind, 'kind': kind,
+                                        'msg': 'run %d: d x[%d,%d] / d A[%d,%d,%d] = %r, exact %r'
+                                               % (k + 1, i, j, a, r, cc, got, want)}
+    return {'res': '__none__', 'ok': True, 'msg': '', 'sig': kind, 'kind': kind}
 
 
 def handle_spline(c):
@@ -432,6 +506,25 @@ def handle_spline(c):
         evaluate(vals)
         if not ok:
             break
+    if ok:
+        # history: linearize again at other control values on the same component
+        vals2 = [np.array(sp['init'], dtype=float).reshape(vs, ncp) for sp in c['splines']]
+        ys2 = evaluate(vals2)
+        comp.run_linearize()
+        subjacs = comp._get_jacobian()._get_subjacs(comp)
+        for k, v in enumerate(vals2):
+            ref = InterpND(points=(grid,), values=v[0, :].copy(), method=method, x_interp=xi, extrapolate=True, **opts)
+            yref, dref = ref.evaluate_spline(v.copy(), compute_derivative=True)
+            dref = np.asarray(dref).reshape(vs, len(xi), ncp)
+            J = np.asarray(subjacs[('c.y%d' % k, 'c.ycp%d' % k)].todense()).real
+            Jref = np.zeros_like(J)
+            for n in range(vs):
+                Jref[n * len(xi):(n + 1) * len(xi), n * ncp:(n + 1) * ncp] = dref[n]
+            if not np.allclose(ys2[k], np.asarray(yref).reshape(vs, len(xi)), rtol=1e-12, atol=1e-12) or \
+                    not np.allclose(J, Jref, rtol=1e-10, atol=1e-12):
+                ok, msg = False, 'spline %d: second evaluation / linearization on the same component differs from a ' \
+                                 'standalone InterpND at the new control values' % k
+                break
     if nkink:
         kind += ':kinks'
     return {'res': '__none__', 'ok': ok, 'msg': msg, 'sig': kind, 'kind': kind}
